@@ -291,8 +291,18 @@ func ServeFile(ctx *RequestContext, path string) {
 			return
 		}
 	}
-	ctx.Request.SetRequestURI(path)
+	// path names a file, not a request target: what looks like an escape, a query or a
+	// fragment in it is part of the name
+	ctx.Request.SetRequestURI(escapeFilePath(path))
 	rootFSHandler(context.Background(), ctx)
+}
+
+// escapeFilePath escapes the bytes of a file path that a URI parser gives a meaning to.
+func escapeFilePath(path string) string {
+	if !strings.ContainsAny(path, "%?#") {
+		return path
+	}
+	return strings.NewReplacer("%", "%25", "?", "%3F", "#", "%23").Replace(path)
 }
 
 // NewRequestHandler returns new request handler with the given FS settings.
